@@ -636,7 +636,19 @@ fn exhaustive(t: Tier) -> Box<dyn Iterator<Item = Case>> {
                 }
             }
         }
-        if t == Tier::Thorough {
+        // 2 threads x 2 calls with a lines() iterator among them (short texts: the iterator makes one
+        // get_line call per line)
+        if nlines <= 2 || t == Tier::Thorough {
+            for a in &calls {
+                for b in &calls {
+                    for c in &calls {
+                        out.push(Scenario { text: text.to_string(), threads: vec![vec![Call::Lines, *a], vec![*b, *c]] });
+                        out.push(Scenario { text: text.to_string(), threads: vec![vec![*a, Call::Lines], vec![*b, *c]] });
+                    }
+                }
+            }
+        }
+        {
             // 4 threads x 1 call on the two smallest texts; 2 threads x 3 calls sampled
             if text.len() <= 1 {
                 for a in &calls {
@@ -836,7 +848,7 @@ fn subs() -> Vec<Sub> {
                 install_hook();
                 run(ctx);
                 if !ctx.failed() {
-                    ctx.note_exhaustive("every interleaving of the yield points (call start, after the cached-line check, after the finished check) for each enumerated scenario shape: 2 threads x 1 call (incl. lines()), 3 threads x 1 call, 2 threads x 2 calls, thorough additionally 4 x 1 and 2 x 3 samples");
+                    ctx.note_exhaustive("every interleaving of the yield points (call start, after the cached-line check, after the finished check) for each enumerated scenario shape: 2 threads x 1 call (incl. lines()), 3 threads x 1 call, 2 threads x 2 calls (with a lines() iterator among them on texts of <= 2 lines; thorough: all texts), 4 x 1 on the two smallest texts, 2 x 3 samples");
                 }
             }),
             ..ex
